@@ -17,6 +17,11 @@ func init() {
 		int64(ast.ModifyColumn): "ModifyColumn", int64(ast.RenameColumn): "RenameColumn", int64(ast.RenameConstraint): "RenameConstraint",
 		int64(ast.RenamePartitions): "RenamePartitions", int64(ast.RenameTable): "RenameTable",
 	}
+	project.Enums["UnaryOperator"] = map[int64]string{
+		int64(ast.Plus): "Plus", int64(ast.Minus): "Minus", int64(ast.Not): "Not", int64(ast.PGBitwiseNot): "PGBitwiseNot",
+		int64(ast.PGSquareRoot): "PGSquareRoot", int64(ast.PGCubeRoot): "PGCubeRoot", int64(ast.PGPostfixFactorial): "PGPostfixFactorial",
+		int64(ast.PGPrefixFactorial): "PGPrefixFactorial", int64(ast.PGAbs): "PGAbs", int64(ast.BangNot): "BangNot",
+	}
 	project.Enums["AlterType"] = map[int64]string{
 		int64(ast.AlterTypeTable): "AlterTypeTable", int64(ast.AlterTypeRole): "AlterTypeRole", int64(ast.AlterTypePolicy): "AlterTypePolicy",
 		int64(ast.AlterTypeConnector): "AlterTypeConnector",
